@@ -2,11 +2,10 @@
 //@ assume: T6 rewrites: `&dyn Fn(..)` parameter => `&Allowed`, `(ctx_specific_validation)(&header)?` => `ctx_specific_validation.call(&header)?`; `.map_err(|e| Error::StoreErr(..))?` => `?`; `vec![]` => Vec::new(); `fork_hashes.reverse()` => helper with the reversal contract; `for h in fork_hashes {` => Verus iterator loop over the same Vec; lifetimes dropped
 //@ assume: termination of the walk back to the fork point is NOT proved (it depends on stored heights decreasing along prev links): the function carries exec_allows_no_decreases_clause
 //@ assume: decided here: pipe::rewind_and_apply_header_fork rewinds the header extension to the first ancestor of `header` (inclusive, walking prev links) that is on the extension's current chain or has height 0, and then re-applies EXACTLY the headers strictly after it on the path to `header`, oldest first, each one only after the ctx-specific validation (deny list) and validate_root succeeded
-//@ assumed_items: 11
+//@ assumed_items: 10
 //@ fns: pipe::rewind_and_apply_header_fork
-#[verifier::external_body]
-#[derive(Clone, Copy)]
-pub struct Hash { _p: u8 }
+#[derive(Clone, Copy, PartialEq, Eq, Structural)]
+pub struct Hash { pub h: u64 }
 #[derive(Clone, Copy)]
 pub struct BlockHeader { pub height: u64, pub id: Hash, pub nonce: u64 }
 impl BlockHeader {
@@ -69,8 +68,8 @@ pub open spec fn fork_depth(chain: Seq<BlockHeader>, h: BlockHeader, n: nat) -> 
 //@   sigrewrite `ctx_specific_validation: &dyn Fn(&BlockHeader) -> Result<(), Error>,` => `ctx_specific_validation: &Allowed,`
 //@   rewrite `let mut fork_hashes = vec![];` => `let mut fork_hashes: Vec<Hash> = Vec::new();`
 //@   rewrite `fork_hashes.reverse();` => `vec_reverse(&mut fork_hashes);`
-//@   rewrite `for h in fork_hashes {` => `for h in it: fork_hashes.iter() {`
-//@   rewrite `\t\t\t.get_block_header(&h)\n\t\t\t.map_err(|e| Error::StoreErr(e, "getting forked headers".to_string()))?;` => `\t\t\t.get_block_header(h)?;`
+//@   rewrite `for h in fork_hashes {` => `for hr in it: fork_hashes.iter() { let h = *hr;`
+//@   rewrite `\t\t\t.get_block_header(&h)\n\t\t\t.map_err(|e| Error::StoreErr(e, "getting forked headers".to_string()))?;` => `\t\t\t.get_block_header(&h)?;`
 //@   rewrite `(ctx_specific_validation)(&header)?;` => `ctx_specific_validation.call(&header)?;`
 //@   loop 1:
 //@+    invariant
